@@ -85,3 +85,6 @@ Proof. split; intros [E|E]; unfold plan_of; cbn; rewrite E; try reflexivity; eex
 Theorem c18_unknown_scheme fx sch h p st : beqs sch (s2b "ldap") = false -> beqs sch (s2b "ldaps") = false -> beqs sch (s2b "ldapi") = false ->
   plan_of fx sch h p st = PErr EUnknownScheme.
 Proof. intros E1 E2 E3. unfold plan_of. now rewrite E3, E1, E2. Qed.
+Theorem c18_ldapi_decodes_path h hs st : std_stream st = None -> contains_colon (h :: hs) = false ->
+  plan_of repaired18 (s2b "ldapi") (Some (h :: hs)) None st = PUnix (pdec (h :: hs)).
+Proof. intros E Hc. unfold plan_of. cbn [beqs]. change (beqs (s2b "ldapi") (s2b "ldapi")) with true. cbv iota. rewrite E, Hc. reflexivity. Qed.
